@@ -545,6 +545,16 @@ def a3(ctx, R):
         nodes = cfg.nodes_for(st)
         if not nodes:
             raise AnalysisError("A3", "store not found in CFG")
+
+        class _F:  # the stored value seen as a fact "this call was truthy"
+            kind = "fact"
+            pol = True
+            info = None
+        if isinstance(val, ast.Call):
+            _F.expr = val
+            if mech_success(_F):
+                ctx.holds("A3", "%s: %s" % (f.qualname, norm(st)[:70]), "the flag takes the mechanism's own verdict")
+                continue
         if all(cfg.guarded(n, mech_success) for n in nodes):
             ctx.holds("A3", "%s: %s" % (f.qualname, norm(st)), "on the success edge of the mechanism call")
         else:
